@@ -220,19 +220,17 @@ class XPathMap(XPathFunction):
             return []
 
     def keys(self, context: ta.ContextType = None) -> MapKeysView:
-        if self._map is None:
-            self._map = self._evaluate(context)
-        return MapKeysView(MappingProxyType(self._map))
+        # a constructor token is not turned into a map: its values depend on the context
+        _map = self._map if self._map is not None else self._evaluate(context)
+        return MapKeysView(MappingProxyType(_map))
 
     def values(self, context: ta.ContextType = None) -> ValuesView[ta.ValueType]:
-        if self._map is None:
-            self._map = self._evaluate(context)
-        return self._map.values()
+        _map = self._map if self._map is not None else self._evaluate(context)
+        return _map.values()
 
     def items(self, context: ta.ContextType = None) -> MapsItemsView:
-        if self._map is None:
-            self._map = self._evaluate(context)
-        return MapsItemsView(MappingProxyType(self._map))
+        _map = self._map if self._map is not None else self._evaluate(context)
+        return MapsItemsView(MappingProxyType(_map))
 
     def match_function_test(self, function_test: ta.SequenceTypesType,
                             as_argument: bool = False) -> bool:
